@@ -99,7 +99,10 @@ func (in *Interp) schedule() *Thread {
 	if len(cands) == 0 {
 		return nil
 	}
-	i := in.decide("sched", len(cands))
+	i := 0
+	if !in.canonical {
+		i = in.decide("sched", len(cands))
+	}
 	t := cands[i]
 	if curEnabled && t != cur {
 		in.preempts++
